@@ -4,6 +4,7 @@ import DaskModel.Model.TaskNode
 import DaskModel.Model.Repack
 import DaskModel.Model.GraphMerge
 import DaskModel.Model.Delayed
+import DaskModel.Model.GetScheduler
 open Dask
 open Dask.NF
 open Dask.TaskNode
@@ -292,8 +293,39 @@ def hDelayedRun : Handler := handler fun args =>
     pure (.list [.int (Int.ofNat (Delayed.evalE codeSem e)), SExp.ofOptNat (GraphMerge.evalG g fuel e.nm), .list entries])
   | _ => none
 
+/-! ### C14: get_scheduler -/
+
+def decSpec : SExp → Option GetScheduler.Spec
+  | .list [.sym "none"] => some .none
+  | .list [.sym "callable", n] => do pure (.callable (← n.toNat?))
+  | .list [.sym "name", .str s] => some (.name s)
+  | .list [.sym "executor", w] => do pure (.executor (← w.toOptInt?).map Int.toNat)
+  | .list [.sym "other"] => some .other
+  | _ => none
+
+def encRes : GetScheduler.Res → SExp
+  | .fn f => .list [.sym "fn", .str f]
+  | .callable id => .list [.sym "callable", .int id]
+  | .async n => .list [.sym "async", .int n]
+  | .default id => .list [.sym "default", .int id]
+  | .nothing => .list [.sym "nothing"]
+  | .typeError => .list [.sym "raised", .str "TypeError"]
+  | .valueError => .list [.sym "raised", .str "ValueError"]
+  | .runtimeError => .list [.sym "raised", .str "RuntimeError"]
+  | .assertionError => .list [.sym "raised", .str "AssertionError"]
+
+/-- `(getscheduler cpu get sched cfgsched cfgget cfgworkers cls (coll…))`, `none` for absent optional values -/
+def hGetScheduler : Handler := handler fun args =>
+  match args with
+  | [cpu, get, sched, cfg, cfgGet, cfgW, cls, .list colls] => do
+    let r := GetScheduler.getScheduler Generated.NamedSchedulers.namedSchedulers (← cpu.toNat?) (← get.toBool?)
+      (← decSpec sched) (← decSpec cfg) (← cfgGet.toBool?) ((← cfgW.toOptInt?).map Int.toNat)
+      ((← cls.toOptInt?).map Int.toNat) (← colls.mapM (fun c => do pure ((← c.toOptInt?).map Int.toNat)))
+    pure (encRes r)
+  | _ => none
+
 def table : List (String × Handler) :=
-  [("delayedrun", hDelayedRun), ("mergeeval", hMergeEval), ("unpack", hUnpack), ("unpacktop", hUnpackTop), ("tune", hTune),
+  [("getscheduler", hGetScheduler), ("delayedrun", hDelayedRun), ("mergeeval", hMergeEval), ("unpack", hUnpack), ("unpacktop", hUnpackTop), ("tune", hTune),
    ("nodepre", hNodePre), ("nodeclass", hNodeClass), ("nodeeval", hNodeEval),
    ("tokpre", hTokPre), ("tokprekw", hTokPreKw), ("pyrepr", hPyRepr), ("pystr", hPyStr), ("logical", hLogical)]
 
